@@ -507,12 +507,79 @@ def boolean_store_rule(chk, P, rule, unit_ok):
     keeps only its low byte.  Every implicit narrowing into a Boolean local or
     parameter must therefore already be a truth value (comparison, logical
     operation, !, Boolean variable, 0/1)."""
-    from .c12 import boolean_valued
+    from .c12 import boolean_valued as _bv
     n = 0
+    regvals = {}
+
+    def handler_index_values(f):
+        """constants registered together with f as an instruction handler (AddInstTable(tab, name, Index, f))"""
+        if f.qname not in regvals:
+            vs = set()
+            for g in P.all_funcs():
+                for b, i, ln, m in g.nodes():
+                    if m[0] == 'call' and any(nocast(a) == ('fn', f.name) for a in m[2]):
+                        for a in m[2]:
+                            if nocast(a) != ('fn', f.name) and nocast(a)[0] != 's' and nocast(a)[0] not in ('g', 'gs', 'l', 'p', 'm'):
+                                c = const_val(a)
+                                vs.add(c)
+                    if m[0] == 'call' and callee_name(m) == f.name and P.resolve(g.unit, f.name) is f:
+                        for a in m[2]:
+                            vs.add(const_val(a))
+                    if m[0] in ('decl', 'sdecl') and m[2] is not None:
+                        for il in walk(m[2]):
+                            if isinstance(il, (list, tuple)) and il and il[0] == 'il' and any(nocast(x) == ('fn', f.name) for x in il[1]):
+                                vs |= {const_val(x) for x in il[1] if nocast(x)[0] in ('c', 'e', 'cast', 'u', 'b')}
+            for u in P.units:
+                for gl in u.globals.values():
+                    if gl.get('init') is None:
+                        continue
+                    for il in walk(gl['init']):
+                        if isinstance(il, (list, tuple)) and il and il[0] == 'il' and any(nocast(x) == ('fn', f.name) for x in il[1]):
+                            vs |= {const_val(x) for x in il[1] if nocast(x)[0] in ('c', 'e', 'cast', 'u', 'b')}
+            regvals[f.qname] = vs
+        return regvals[f.qname]
+
+    def boolean_valued(f, e):
+        if _bv(f, e):
+            return True
+        x = nocast(e)
+        if x[0] == 'p' and len(f.params) == 1 and f.params[0]['name'] == x[1]:
+            vs = handler_index_values(f)
+            return bool(vs) and all(v in (0, 1) for v in vs)
+        return False
+
+    def narrowed(r):
+        while isinstance(r, (list, tuple)) and r and r[0] in ('ref', 'cf'):
+            r = r[1]
+        return r if (r[0] == 'cast' and r[1] == 'i' and abs(r[2]) == 8) else None
     for f in P.all_funcs():
         if not unit_ok(f.unit.name):
             continue
+        rbool = str(f.raw.get('type', '')).startswith('Boolean (')
         for b, i, ln, m in f.nodes():
+            if m[0] == 'ret' and rbool and m[1] is not None:
+                r = narrowed(m[1])
+                if r is not None:
+                    n += 1
+                    ok = boolean_valued(f, r[4])
+                    chk.ob(rule, '%s:%s:return %s' % (f.unit.name, f.name, show(r[4])[:40]), ok, f.loc(ln),
+                           'truth value' if ok else
+                           'the %d-bit value %s is returned as the 8-bit Boolean: only its low byte survives, so a non-zero value '
+                           'that is a multiple of 256 reads as False' % (abs(r[3]), show(r[4])))
+                continue
+            if m[0] == 'call' and callee_name(m):
+                g = P.resolve(f.unit, callee_name(m))
+                if g is not None:
+                    for ai, a in enumerate(m[2]):
+                        if ai < len(g.params) and g.params[ai]['type'].get('t') == 'Boolean':
+                            r = narrowed(a)
+                            if r is not None:
+                                n += 1
+                                ok = boolean_valued(f, r[4])
+                                chk.ob(rule, '%s:%s:%s(#%d %s)' % (f.unit.name, f.name, g.name, ai + 1, show(r[4])[:30]), ok, f.loc(ln),
+                                       'truth value' if ok else
+                                       'the %d-bit value %s is passed as the 8-bit Boolean parameter %s of %s(): only its low '
+                                       'byte survives' % (abs(r[3]), show(r[4]), g.params[ai]['name'], g.name))
             tgt = rhs = None
             if is_assign(m) and m[1] == '=':
                 tgt, rhs = strip(m[2]), m[3]
